@@ -144,9 +144,13 @@ type Kernel struct {
 	change  [8]int
 	nchange int
 	// stats
-	Externals  int // times a task blocked outside the kernel's knowledge
-	Contended  int // times a task was found parked on a held lock
-	MaxEnabled int
+	Externals int // times a task blocked outside the kernel's knowledge
+	// ExternalWait: how much virtual time the kernel lets pass, when nothing else can happen,
+	// for a task that is blocked outside its knowledge to come back (0: none).
+	ExternalWait       int64
+	extWaited, extStep int64
+	Contended          int // times a task was found parked on a held lock
+	MaxEnabled         int
 	// OnStep, if set, is called by the kernel before every choice (invariants).
 	OnStep func(k *Kernel)
 }
@@ -441,10 +445,27 @@ func (k *Kernel) Run() Verdict {
 			k.OnStep(k)
 		}
 		n, next := k.collect(now)
+		if n > 0 {
+			k.extWaited, k.extStep = 0, 0
+		}
 		if n == 0 {
 			if next == Never {
 				if k.mainDone() {
 					return AllDone
+				}
+				if k.ExternalWait > 0 && k.extWaited < k.ExternalWait && k.hasExternal() {
+					// A task is blocked on something the kernel does not know. It may be a timer of
+					// the bubble (a context deadline): let virtual time pass, in growing steps, and
+					// look again. The task itself wakes at the exact instant of its timer; only the
+					// kernel's reaction is as coarse as the step.
+					if k.extStep == 0 {
+						k.extStep = int64(time.Millisecond)
+					} else if k.extStep < int64(time.Second) {
+						k.extStep *= 2
+					}
+					k.extWaited += k.extStep
+					time.Sleep(time.Duration(k.extStep))
+					continue
 				}
 				return Quiescent
 			}
@@ -500,6 +521,16 @@ func (k *Kernel) settle() {
 		}
 		time.Sleep(1)
 	}
+}
+
+//go:norace
+func (k *Kernel) hasExternal() bool {
+	for i := 0; i < k.ntasks; i++ {
+		if k.tasks[i].state == tExternal {
+			return true
+		}
+	}
+	return false
 }
 
 // markExternal: the running task is durably blocked outside the kernel's knowledge.
